@@ -308,7 +308,8 @@ def decide(pid, cfg, tier, seed, args):
     ev = {
         "property_id": pid, "tier": tier, "seed": seed, "level": "proof",
         "coverage": {
-            "obligations": len(relevant) + len(extra_obl),
+            "obligations": len(relevant) + len(extra_obl) - len(known_reported),
+            "refuted_known_findings": len(known_reported),
             "discharged": len(discharged) + n_extra_ok,
             "checker_cmd": res.cmd + ((" ; " + " ; ".join(o['cmd'] for o in extra_obl if o.get('cmd'))) if extra_obl else ""),
             "trusted_base": tb,
